@@ -30,6 +30,9 @@ func init() {
 			x := strings.Split(v, "|")
 			surveySiblingConds(p, x[0], x[1], x[2])
 		}
+		if os.Getenv("DBGASMCOND") != "" {
+			surveyAsmConds(p)
+		}
 		if os.Getenv("DBGRETALIAS") != "" {
 			surveyReturnAlias(p)
 		}
@@ -1096,4 +1099,58 @@ func surveySiblingConds(p *Program, pkg, ta, tb string) {
 		}
 	}
 	fmt.Println("sibling methods:", n, "differing:", nd)
+}
+
+func surveyAsmConds(p *Program) {
+	byPkg := map[string]map[string][]string{}
+	for f := range p.AllFuncs {
+		if f.Blocks == nil || !isCirclFunc(f) || !sourceFunc(f) {
+			continue
+		}
+		for _, b := range f.Blocks {
+			for _, in := range b.Instrs {
+				ci, ok := in.(ssa.CallInstruction)
+				if !ok {
+					continue
+				}
+				cal := ci.Common().StaticCallee()
+				if cal == nil || cal.Blocks != nil || !isCirclFunc(cal) || cal.Synthetic != "" {
+					continue
+				}
+				// controlling condition: nearest dominating If with b in exactly one arm
+				cond := "(unconditional)"
+				for d := b; d.Idom() != nil; d = d.Idom() {
+					pd := d.Idom()
+					if ifi, ok := pd.Instrs[len(pd.Instrs)-1].(*ssa.If); ok && len(d.Preds) == 1 {
+						arm := "T"
+						if pd.Succs[1] == d {
+							arm = "F"
+						}
+						cond = arm + ":" + descVal(ifi.Cond)
+						break
+					}
+				}
+				pk := strings.TrimPrefix(funcPkgPath(f), circlPath+"/")
+				if byPkg[pk] == nil {
+					byPkg[pk] = map[string][]string{}
+				}
+				byPkg[pk][cond] = append(byPkg[pk][cond], f.Name()+"->"+cal.Name())
+			}
+		}
+	}
+	var pks []string
+	for k := range byPkg {
+		pks = append(pks, k)
+	}
+	sort.Strings(pks)
+	for _, pk := range pks {
+		fmt.Println("ASMCOND", pk)
+		for cnd, fs := range byPkg[pk] {
+			sort.Strings(fs)
+			if len(fs) > 6 {
+				fs = append(fs[:6], fmt.Sprintf("... %d more", len(fs)-6))
+			}
+			fmt.Printf("    %-60s %v\n", cnd, fs)
+		}
+	}
 }
